@@ -382,7 +382,10 @@ def run_stream(prop_id, cfg, scfg, seed, tier, log, stats):
     if os.path.isdir(cdir):
         for fn in sorted(os.listdir(cdir)):
             if fn.endswith(".ops"):
-                inputs.append(("corpus:" + fn, os.path.join(cdir, fn)))
+                # run a scratch copy so that the side files (.impl/.model/.resolved) stay out of corpus/
+                cp = os.path.join(work, "corpus-" + stream + "-" + fn)
+                shutil.copyfile(os.path.join(cdir, fn), cp)
+                inputs.append(("corpus:" + fn, cp))
     # 2. generated
     scale = scfg.get("scale", {}).get(tier)
     nseeds = scfg.get("seeds", {}).get(tier, 1)
